@@ -294,25 +294,26 @@ type jsonrtCfg struct {
 
 func jsonrtDescribe(t *rtTarget) string { return t.name + " " + string(t.md.FullName()) }
 
-// jsonrtOptionSets: quick: all-off, all-on and 8 random combinations; thorough: all 64.
-func jsonrtOptionSets(c *Ctx) []int {
-	if c.Tier == "thorough" {
-		all := make([]int, 64)
-		for i := range all {
-			all[i] = i
-		}
-		return all
-	}
-	seen := map[int]bool{0: true, 63: true}
-	out := []int{0, 63}
-	for len(out) < 10 {
+// jsonrtOptionSets: the option combinations tried for one message (quick: all-off, all-on and 8 random
+// combinations; thorough: all 64) and the subset for which model-compared case lines are written
+// (always all-off, all-on and 8 random ones: the case files of 64 trees per message would be too large).
+func jsonrtOptionSets(c *Ctx) (all []int, withC map[int]bool) {
+	withC = map[int]bool{0: true, 63: true}
+	sel := []int{0, 63}
+	for len(sel) < 10 {
 		b := c.Intn(64)
-		if !seen[b] {
-			seen[b] = true
-			out = append(out, b)
+		if !withC[b] {
+			withC[b] = true
+			sel = append(sel, b)
 		}
 	}
-	return out
+	if c.Tier == "thorough" {
+		for i := 0; i < 64; i++ {
+			all = append(all, i)
+		}
+		return all, withC
+	}
+	return sel, withC
 }
 
 func jsonrtOne(c *Ctx, t *rtTarget, m protoreflect.Message, cfg jsonrtCfg) {
@@ -361,8 +362,10 @@ func jsonrtOne(c *Ctx, t *rtTarget, m protoreflect.Message, cfg jsonrtCfg) {
 			c.Case("jsonrt", "cls", append([]string{id, "1"}, val...), []string{cls})
 		}
 	}
-	for _, bits := range jsonrtOptionSets(c) {
+	optSets, withC := jsonrtOptionSets(c)
+	for _, bits := range optSets {
 		mo := jsonrtOpts(bits)
+		emitC := cfg.emitC && withC[bits]
 		b, err := mo.Marshal(m.Interface())
 		ob := strconv.Itoa(bits)
 		if err != nil {
@@ -373,7 +376,7 @@ func jsonrtOne(c *Ctx, t *rtTarget, m protoreflect.Message, cfg jsonrtCfg) {
 			} else if strings.HasPrefix(cls, "other:") {
 				c.PropFail("C20", "Marshal fails with an error outside the enumerated classes: "+cls+" "+what)
 			}
-			if cfg.emitC {
+			if emitC {
 				c.Case("jsonrt", "enc", append(append([]string{id, ob}, val...), "X"), []string{"err", cls})
 			}
 			continue
@@ -388,7 +391,7 @@ func jsonrtOne(c *Ctx, t *rtTarget, m protoreflect.Message, cfg jsonrtCfg) {
 			c.PropFail("C20", "Marshal output is not JSON: "+what+" opts="+ob, HexB(b))
 			continue
 		}
-		if cfg.emitC {
+		if emitC {
 			c.Case("jsonrt", "enc", append(append(append([]string{id, ob}, val...), "T"), tree...), []string{"ok"})
 		}
 		m2 := t.new()
@@ -397,7 +400,7 @@ func jsonrtOne(c *Ctx, t *rtTarget, m protoreflect.Message, cfg jsonrtCfg) {
 			c.PropFail("C20", "Unmarshal(Marshal(m)) fails: "+err.Error()+" "+what+" opts="+ob, HexB(b))
 			continue
 		}
-		if cfg.emitC && (bits == 0 || bits == 63 || c.Intn(4) == 0) {
+		if emitC && (bits == 0 || bits == 63 || c.Intn(4) == 0) {
 			c.Case("jsonrt", "dec", append([]string{id}, tree...), append([]string{"ok"}, msgDump(m2)...))
 		}
 		if lossy != "" {
